@@ -20,8 +20,6 @@ package ignore
 
 // the codes of an @ignore line: the comma list captured by the expression, trimmed, empty items dropped, upper-cased
 //@ macro func ignCodesOf(text string) string = strings.TrimSpace(reGroup(ignoreRegex, text, 1))
-// the list has at least one non-blank item
-//@ macro func listAny(input string) bool = input != "" && (exists k int :: 0 <= k && k < len(strings.Split(input, ",")) && strings.TrimSpace(strings.Split(input, ",")[k]) != "")
 //@ func parseIgnoreAnnotation
 //@   props C07 C15 C10
 //@   fresh
